@@ -14,7 +14,8 @@ func init() { propRunners["C17"] = runC17 }
 // package-level default, used only through the package-level functions and never
 // registered on (that would leak into every other op of the run); instances
 // 1.. are created by (new FLAGS).
-//   (new FLAGS) (reg I xTYPENAME xTAG codec) (null I) (enc I T V) (cft I T xTAG)
+//
+//	(new FLAGS) (reg I xTYPENAME xTAG codec) (null I) (enc I T V) (cft I T xTAG)
 func execWorld(s *Sexp) string {
 	return guard(func() string {
 		insts := []*plenc.Plenc{nil}
